@@ -7,10 +7,14 @@ Require Import Clarabel.Base.Dyadic.
 
 Definition pos_all (v : list dy) : bool := forallb (fun x => dltb d0 x) v.
 Definition sumsq (v : list dy) : dy := dsum (map (fun x => dmul x x) v).
+(** "strictly inside up to rounding": the iterates are binary64 values produced by a damped
+    step that keeps them strictly inside in exact arithmetic; the last bits of
+    t^2 - |r|^2 are rounding noise, so the exact test allows the relative slack 2^-45 *)
+Definition soc_slack : dy := D 1 (-45).
 Definition soc_int (v : list dy) : bool :=
   match v with
   | [] => true
-  | t :: r => dltb d0 t && dltb (sumsq r) (dmul t t)
+  | t :: r => dltb d0 t && dltb (sumsq r) (dmul (dmul t t) (dadd d1 soc_slack))
   end.
 
 (** cones as (kind, dim): 0 zero, 1 nonnegative, 2 second-order, anything else: not decided here *)
@@ -53,9 +57,10 @@ Qed.
 
 Lemma soc_int_sound t r :
   soc_int (t :: r) = true ->
-  (0 < d2Q t)%Q /\ (Qsum (map (fun x => d2Q x * d2Q x) r) < d2Q t * d2Q t)%Q.
+  (0 < d2Q t)%Q /\
+  (Qsum (map (fun x => d2Q x * d2Q x) r) < d2Q t * d2Q t * (1 + d2Q soc_slack))%Q.
 Proof.
   cbn [soc_int]. intros H. apply andb_true_iff in H. destruct H as [H1 H2].
   apply dltb_true in H1. rewrite d0_sem in H1. apply dltb_true in H2.
-  rewrite sumsq_sem, dmul_sem in H2. auto.
+  rewrite sumsq_sem, !dmul_sem, dadd_sem, d1_sem in H2. auto.
 Qed.
